@@ -409,6 +409,7 @@ fn run_op(h: &Handle, op: &Value, ctx: &Ctx) -> Outcome {
                     return o;
                 }
                 let path = tmp.path().to_owned();
+                apply_srcmode(&path, op);       // the application may have chmod'ed its temp file itself
                 phase("lib");
                 let r = if api == "set_tf" { c.set_temp_file(key, tmp) } else { c.put_temp_file(key, tmp) };
                 phase("app");
@@ -421,13 +422,21 @@ fn run_op(h: &Handle, op: &Value, ctx: &Ctx) -> Outcome {
         "ensure" => match h {
             Handle::Stack(c) => {
                 let pop = op["populate"].as_str().unwrap_or("value").to_string();
+                let popmode = op["popmode"].as_u64();
                 phase("lib");
                 from_file(c.ensure(key, |dst| {
                     phase("cb");
                     let r = match pop.as_str() {
                         "notfound" => Err(std::io::Error::new(std::io::ErrorKind::NotFound, "populate: not found")),
                         "error" => Err(std::io::Error::new(std::io::ErrorKind::Other, "populate: failed")),
-                        _ => write_value(dst, name, val, pid, chunks, chunk),
+                        _ => write_value(dst, name, val, pid, chunks, chunk).and_then(|_| match popmode {
+                            // a populate callback that chmods the file it was given
+                            Some(m) => {
+                                use std::os::unix::fs::PermissionsExt;
+                                dst.set_permissions(std::fs::Permissions::from_mode(m as u32))
+                            }
+                            None => Ok(()),
+                        }),
                     };
                     phase("lib");
                     r
@@ -573,6 +582,14 @@ fn run_world_op(op: &Value, ctx: &Ctx) -> Outcome {
             }
             Ok(())
         }
+        "symlink" => {
+            // {"path": link name, "target": what it points to (relative to the link's directory, or absolute)}
+            let path = Path::new(op["path"].as_str().unwrap());
+            if let Some(parent) = path.parent() {
+                std::fs::create_dir_all(parent)?;
+            }
+            std::os::unix::fs::symlink(op["target"].as_str().unwrap(), path)
+        }
         "utimes" => stamp(Path::new(op["path"].as_str().unwrap()), op),
         "unlink" => std::fs::remove_file(op["path"].as_str().unwrap()),
         "chmod" => {
@@ -633,7 +650,7 @@ fn stamp(path: &Path, op: &Value) -> std::io::Result<()> {
 }
 
 fn is_world_op(api: &str) -> bool {
-    matches!(api, "mkdir" | "mkfile" | "mkfiles" | "utimes" | "unlink" | "chmod" | "sleep_ms")
+    matches!(api, "mkdir" | "mkfile" | "mkfiles" | "utimes" | "unlink" | "chmod" | "sleep_ms" | "symlink")
 }
 
 fn observe_handle(f: &mut File, chunk: usize) -> Value {
